@@ -91,6 +91,19 @@ static void rot_checks(const std::string & tn)
 }
 
 // ------------------------------------------------------------------ quaternions
+/// input norms: far from unit, exactly unit, and 1 +- 2^-k for every k down to one ulp of S (a constructor that skips
+/// or approximates the normalisation for "almost unit" inputs shows up on this ladder)
+template<typename S>
+static std::vector<double> norm_ladder()
+{
+  std::vector<double> s{0.1, 1, 7};
+  const int digits = std::numeric_limits<S>::digits - 1;
+  for (int k = 1; k <= digits; ++k) {
+    s.push_back(1.0 + std::ldexp(1.0, -k));
+    s.push_back(1.0 - std::ldexp(1.0, -k));
+  }
+  return s;
+}
 template<typename S>
 static void quat_checks(const std::string & tn)
 {
@@ -108,11 +121,11 @@ static void quat_checks(const std::string & tn)
   for (L w : {0.0L, -0.0L, 1e-20L, -1e-20L, 1e-300L, -1e-300L})
     for (auto & d : std::vector<std::array<L, 3>>{{1, 0, 0}, {0, 1, 0}, {0, 0, -1}, {0.6L, 0.8L, 0}, {0.36L, -0.48L, 0.8L}})
       B.push_back({{d[0], d[1], d[2], w}, PI});
-  const double scales[3] = {0.1, 1, 7};
-  mc::explore("C17/quaternion/" + tn, B.size() * 6, [&](mc::Case & c) {
+  const auto scales = norm_ladder<S>();
+  mc::explore("C17/quaternion/" + tn, B.size() * 2 * scales.size(), [&](mc::Case & c) {
     mc::Radix r(c.idx);
     const int sg    = r.next(2) ? -1 : 1;
-    const double sc = scales[r.next(3)];
+    const double sc = scales[r.next(scales.size())];
     const auto & b  = B[r.next(B.size())];
     S qi[4];
     for (int i = 0; i < 4; ++i) qi[i] = (S)(sg * sc * b.q[size_t(i)]);
@@ -151,10 +164,10 @@ static void complex_checks(const std::string & tn)
   std::vector<Z> B;
   for (double t : angles_full<S>()) B.push_back({std::cos((L)t), std::sin((L)t), t});
   for (auto & p : signed_zero_pairs()) B.push_back({(L)p[1], (L)p[0], std::nan("")});
-  const double scales[3] = {0.1, 1, 7};
-  mc::explore("C17/complex/" + tn, B.size() * 3, [&](mc::Case & c) {
-    const auto & b  = B[c.idx / 3];
-    const double sc = scales[c.idx % 3];
+  const auto scales = norm_ladder<S>();
+  mc::explore("C17/complex/" + tn, B.size() * scales.size(), [&](mc::Case & c) {
+    const auto & b  = B[c.idx / scales.size()];
+    const double sc = scales[c.idx % scales.size()];
     const S re = (S)(sc * b.re), im = (S)(sc * b.im);
     c.desc = [&] { return mc::fmt("complex(re=%a, im=%a) scale %.3g", (double)re, (double)im, sc); };
     c.param("scale", sc);
